@@ -163,7 +163,7 @@ def clipStep (i : Nat) (mn mx o d : K) (st : ClipSt K) : Option (ClipSt K) :=
       if far < st1.tmax then
         { st1 with tmax := far, farSide := if !flip then -((i : Int) + 1) else (i : Int) + 1, farDiag := false }
       else if neq far st1.tmax then { st1 with farDiag := true } else st1
-    if st2.tmax < 0 ∨ st2.tmax < st2.tmin then none else some st2
+    if st2.tmax < st2.tmin then none else some st2
 
 /-- result of `clip_aabb_line`: `(param, normal, side)` for the near and the far intersection -/
 structure ClipEnd (K : Type) where
@@ -172,8 +172,6 @@ structure ClipEnd (K : Type) where
   side : Int
 
 inductive ClipRes (K : Type) where
-  /-- `normal[(0 - 1) as usize]`: index out of bounds (only when no axis ever updated the side, e.g. zero direction) -/
-  | panic
   | none
   | some (near far : ClipEnd K)
 
@@ -181,7 +179,9 @@ inductive ClipRes (K : Type) where
 def axisVec (k : Int) (v : K) : V3 K :=
   if k = 0 then ⟨v, 0, 0⟩ else if k = 1 then ⟨0, v, 0⟩ else ⟨0, 0, v⟩
 
-/-- `clip_aabb_line(aabb, origin, dir)`; `big` is `Real::MAX` -/
+/-- `clip_aabb_line(aabb, origin, dir)`; `big` is `Real::MAX`.  The per-axis early exit is `tmin > tmax` only (a box behind
+the origin is still clipped; the ray forms test `far < 0` themselves), and a side code `0` (no axis ever updated that end,
+e.g. zero direction) leaves the normal at zero. -/
 def clipAabbLine (big : K) (b : Aabb K) (o d : V3 K) : ClipRes K :=
   let st : ClipSt K := ⟨-big, big, 0, 0, false, false⟩
   match clipStep 0 b.mins.x b.maxs.x o.x d.x st with
@@ -193,47 +193,48 @@ def clipAabbLine (big : K) (b : Aabb K) (o d : V3 K) : ClipRes K :=
   match clipStep 2 b.mins.z b.maxs.z o.z d.z s1 with
   | none => .none
   | some s =>
-    if (!s.nearDiag && s.nearSide == 0) || (!s.farDiag && s.farSide == 0) then .panic else
     let near : ClipEnd K :=
       if s.nearDiag then ⟨s.tmin, d.normalize.neg, s.nearSide⟩
       else if s.nearSide < 0 then ⟨s.tmin, axisVec (-s.nearSide - 1) 1, s.nearSide⟩
-      else ⟨s.tmin, axisVec (s.nearSide - 1) (-1), s.nearSide⟩
+      else if 0 < s.nearSide then ⟨s.tmin, axisVec (s.nearSide - 1) (-1), s.nearSide⟩
+      else ⟨s.tmin, V3.zero, s.nearSide⟩
     let far : ClipEnd K :=
       if s.farDiag then ⟨s.tmax, d.normalize.neg, s.farSide⟩
       else if s.farSide < 0 then ⟨s.tmax, axisVec (-s.farSide - 1) (-1), s.farSide⟩
-      else ⟨s.tmax, axisVec (s.farSide - 1) 1, s.farSide⟩
+      else if 0 < s.farSide then ⟨s.tmax, axisVec (s.farSide - 1) 1, s.farSide⟩
+      else ⟨s.tmax, V3.zero, s.farSide⟩
     .some near far
 
 /-- `ray_aabb` + the feature computation of `Aabb::cast_local_ray_and_get_normal`.
-Feature: `i < 0 → Face(-i - 1 + 3)`, else `Face(i - 1)`. `Except`-style: `none` in the outer option = panic. -/
-def Aabb.castLocalRayAndGetNormal (big : K) (b : Aabb K) (ray : Ray3 K) (maxToi : K) (solid : Bool) :
-    Option (Option (Hit3 K)) :=
+Feature: `i < 0 → Face(-i - 1 + 3)`, else `Face(i as u32 - 1)` (for `i = 0` the release build wraps to `u32::MAX`). -/
+def Aabb.castLocalRayAndGetNormal (big : K) (b : Aabb K) (ray : Ray3 K) (maxToi : K) (solid : Bool) : Option (Hit3 K) :=
   let mk := fun (t : K) (n : V3 K) (i : Int) =>
-    ({ toi := t, n := n, fkind := 0, fidx := if i < 0 then (-i - 1 + 3).toNat else (i - 1).toNat } : Hit3 K)
+    ({ toi := t, n := n, fkind := 0,
+       fidx := if i < 0 then (-i - 1 + 3).toNat else if i = 0 then 4294967295 else (i - 1).toNat } : Hit3 K)
   match clipAabbLine big b ray.o ray.d with
-  | .panic => none
-  | .none => some none
+  | .none => none
   | .some near far =>
-    if near.t < 0 then
-      if solid then some (some (mk 0 V3.zero far.side))
-      else if far.t ≤ maxToi then some (some (mk far.t far.n far.side))
-      else some none
-    else if near.t ≤ maxToi then some (some (mk near.t near.n near.side))
-    else some none
+    if far.t < 0 then none
+    else if near.t < 0 then
+      if solid then some (mk 0 V3.zero far.side)
+      else if far.t ≤ maxToi then some (mk far.t far.n far.side)
+      else none
+    else if near.t ≤ maxToi then some (mk near.t near.n near.side)
+    else none
 
 /-- `Cuboid::cast_local_ray` -/
 def Cuboid3.castLocalRay (big : K) (s : Cuboid3 K) (ray : Ray3 K) (maxToi : K) (solid : Bool) : Option K :=
   (Aabb.mk s.he.neg s.he).castLocalRay big ray maxToi solid
 /-- `Cuboid::cast_local_ray_and_get_normal` -/
 def Cuboid3.castLocalRayAndGetNormal (big : K) (s : Cuboid3 K) (ray : Ray3 K) (maxToi : K) (solid : Bool) :
-    Option (Option (Hit3 K)) :=
+    Option (Hit3 K) :=
   (Aabb.mk s.he.neg s.he).castLocalRayAndGetNormal big ray maxToi solid
 /-- `RayCast::cast_ray` / `cast_ray_and_get_normal` defaults, specialised to the cuboid -/
 def Cuboid3.castRay (big : K) (s : Cuboid3 K) (m : Iso3 K) (ray : Ray3 K) (maxToi : K) (solid : Bool) : Option K :=
   s.castLocalRay big (ray.invTransform m) maxToi solid
 def Cuboid3.castRayAndGetNormal (big : K) (s : Cuboid3 K) (m : Iso3 K) (ray : Ray3 K) (maxToi : K) (solid : Bool) :
-    Option (Option (Hit3 K)) :=
-  (s.castLocalRayAndGetNormal big (ray.invTransform m) maxToi solid).map (·.map (·.transformBy m))
+    Option (Hit3 K) :=
+  (s.castLocalRayAndGetNormal big (ray.invTransform m) maxToi solid).map (·.transformBy m)
 
 /-- `BoundingSphere::cast_local_ray_and_get_normal`: `ray.translate_by(-center)` then the ball cast -/
 def bsphereCastLocalRayAndGetNormal (center : V3 K) (r : K) (ray : Ray3 K) (maxToi : K) (solid : Bool) : Option (Hit3 K) :=
